@@ -49,6 +49,8 @@ Qed.
 Section Registry.
 Variable c : rcfg.
 Hypothesis Hwf : c_sys_last c < c_max c.
+(* the code as pinned: a row carrying the deleted mark is skipped on load *)
+Hypothesis Hskipdel : c_skipdel c = true.
 
 Lemma mem0_ok : mem_ok c (mem0 c).
 Proof.
@@ -115,7 +117,7 @@ Proof.
     assert (Hinj' : forall n1 n2 id0, In (n1, id0) r -> In (n2, id0) r -> skip c id0 = false -> n1 = n2)
       by (intros n1 n2 id0 H1 H2; apply (Hinj n1 n2 id0); right; assumption).
     destruct (skip c id) eqn:Esk.
-    + destruct (IH m) as (m' & Hl & Hok' & Hiff); auto.
+    + rewrite Hskipdel. destruct (IH m) as (m' & Hl & Hok' & Hiff); auto.
       * intros n0 id0 Hin; apply (Hcomp n0 id0); right; exact Hin.
       * exists m'. split; [exact Hl|split; [exact Hok'|]]. intros n0 id0; split.
         -- intros H. apply Hiff in H. destruct H as [H|[H1 H2]]; [left; exact H | right; split; [right; exact H1|exact H2]].
@@ -605,6 +607,9 @@ Lemma cfg_q_late : c_late cfg_q = true. Proof. reflexivity. Qed.
 Lemma cfg_c_late : c_late cfg_c = true. Proof. reflexivity. Qed.
 Lemma cfg_s_late : c_late cfg_s = true. Proof. reflexivity. Qed.
 Lemma cfg_q_atomic : c_atomic cfg_q = true. Proof. reflexivity. Qed.
+Lemma cfg_q_skipdel : c_skipdel cfg_q = true. Proof. reflexivity. Qed.
+Lemma cfg_c_skipdel : c_skipdel cfg_c = true. Proof. reflexivity. Qed.
+Lemma cfg_s_skipdel : c_skipdel cfg_s = true. Proof. reflexivity. Qed.
 
 Definition sys_ok (s : sys) : Prop :=
   rows_ok cfg_q (p_rows (s_q s)) /\ rows_ok cfg_c (p_rows (s_c s)) /\ rows_ok cfg_s (p_rows (s_s s)).
@@ -631,12 +636,12 @@ Definition lookup_ok (c : rcfg) (m : mem) (names : list bytes) (p' : pers) : Pro
   (forall n id, sm_get n (p_rows p') = Some id -> skip c id = false -> sm_get n (m_names m) = Some id).
 
 Lemma prepare_lookup_ok c p v names f p' v' m :
-  c_sys_last c < c_max c -> c_needver c = false -> c_late c = true ->
+  c_sys_last c < c_max c -> c_skipdel c = true -> c_needver c = false -> c_late c = true ->
   rows_ok c (p_rows p) -> vol_ok c p v ->
   prepare c p v names f = (p', v', ROk m) -> lookup_ok c m names p'.
 Proof.
-  intros Hwf Hread Hlate Hrows Hv E.
-  destruct (prepare_spec c Hwf Hread Hlate _ _ _ _ _ _ _ Hrows Hv E) as (_ & (Hok & _ & Hpers) & _ & _ & Hm & _).
+  intros Hwf Hsd Hread Hlate Hrows Hv E.
+  destruct (prepare_spec c Hwf Hsd Hread Hlate _ _ _ _ _ _ _ Hrows Hv E) as (_ & (Hok & _ & Hpers) & _ & _ & Hm & _).
   destruct (Hm m eq_refl) as (Em & Ech & Hld & Hall). subst m.
   split; [exact Hall|split; [|split; [|exact Hld]]].
   - intros n1 n2 id H1 H2. eapply mem_ok_injective; eauto.
@@ -654,7 +659,7 @@ Lemma run_start_spec s pr qn cn sn f s' pr' o :
 Proof.
   intros (Hq & Hc & Hs) (Vq & Vc & Vs) E. unfold run_start in E.
   destruct (prepare cfg_q (s_q s) (pr_q pr) qn (fault_for f 0)) as [[q' vq] rq] eqn:Eq.
-  pose proof (prepare_spec cfg_q cfg_q_wf cfg_q_read cfg_q_late _ _ _ _ _ _ _ Hq Vq Eq) as (Rq & Wq & Sq & _).
+  pose proof (prepare_spec cfg_q cfg_q_wf cfg_q_skipdel cfg_q_read cfg_q_late _ _ _ _ _ _ _ Hq Vq Eq) as (Rq & Wq & Sq & _).
   assert (Hstab : forall (q1 c1 s1 : pers),
             (forall n id, sm_get n (p_rows (s_q s)) = Some id -> skip cfg_q id = false -> sm_get n (p_rows q1) = Some id) ->
             (forall n id, sm_get n (p_rows (s_c s)) = Some id -> skip cfg_c id = false -> sm_get n (p_rows c1) = Some id) ->
@@ -666,21 +671,21 @@ Proof.
   2:{ inversion E; subst. split; [split; [exact Rq|split; [exact Hc|exact Hs]]|]. split; [split; [exact Wq|split; [exact Vc|exact Vs]]|].
       split; [apply Hstab; auto|discriminate]. }
   destruct (prepare cfg_c (s_c s) (pr_c pr) cn (fault_for f 1)) as [[c' vc] rc] eqn:Ec.
-  pose proof (prepare_spec cfg_c cfg_c_wf cfg_c_read cfg_c_late _ _ _ _ _ _ _ Hc Vc Ec) as (Rc & Wc & Sc & _).
+  pose proof (prepare_spec cfg_c cfg_c_wf cfg_c_skipdel cfg_c_read cfg_c_late _ _ _ _ _ _ _ Hc Vc Ec) as (Rc & Wc & Sc & _).
   destruct rc as [mc|e].
   2:{ inversion E; subst. split; [split; [exact Rq|split; [exact Rc|exact Hs]]|]. split; [split; [exact Wq|split; [exact Wc|exact Vs]]|].
       split; [apply Hstab; auto|discriminate]. }
   destruct (prepare cfg_s (s_s s) (pr_s pr) sn (fault_for f 2)) as [[t' vs] rs] eqn:Es.
-  pose proof (prepare_spec cfg_s cfg_s_wf cfg_s_read cfg_s_late _ _ _ _ _ _ _ Hs Vs Es) as (Rs & Ws & Ss & _).
+  pose proof (prepare_spec cfg_s cfg_s_wf cfg_s_skipdel cfg_s_read cfg_s_late _ _ _ _ _ _ _ Hs Vs Es) as (Rs & Ws & Ss & _).
   destruct rs as [ms|e].
   2:{ inversion E; subst. split; [split; [exact Rq|split; [exact Rc|exact Rs]]|]. split; [split; [exact Wq|split; [exact Wc|exact Ws]]|].
       split; [apply Hstab; auto|discriminate]. }
   inversion E; subst. split; [split; [exact Rq|split; [exact Rc|exact Rs]]|]. split; [split; [exact Wq|split; [exact Wc|exact Ws]]|].
   split; [apply Hstab; auto|]. intros mq' mc' ms' Ho. inversion Ho; subst. cbn.
   split; [|split].
-  - exact (prepare_lookup_ok _ _ _ _ _ _ _ _ cfg_q_wf cfg_q_read cfg_q_late Hq Vq Eq).
-  - exact (prepare_lookup_ok _ _ _ _ _ _ _ _ cfg_c_wf cfg_c_read cfg_c_late Hc Vc Ec).
-  - exact (prepare_lookup_ok _ _ _ _ _ _ _ _ cfg_s_wf cfg_s_read cfg_s_late Hs Vs Es).
+  - exact (prepare_lookup_ok _ _ _ _ _ _ _ _ cfg_q_wf cfg_q_skipdel cfg_q_read cfg_q_late Hq Vq Eq).
+  - exact (prepare_lookup_ok _ _ _ _ _ _ _ _ cfg_c_wf cfg_c_skipdel cfg_c_read cfg_c_late Hc Vc Ec).
+  - exact (prepare_lookup_ok _ _ _ _ _ _ _ _ cfg_s_wf cfg_s_skipdel cfg_s_read cfg_s_late Hs Vs Es).
 Qed.
 
 (* ---------- histories ---------- *)
@@ -748,7 +753,7 @@ Proof.
   - cbn. destruct (rename cfg_q (s_q s) old new (rn_fault_for f)) as [q' code] eqn:Er. cbn.
     split; [|discriminate]. destruct Hok as (Hq & Hc & Hs). split; [|split; [exact Hc|exact Hs]]. cbn.
     replace q' with (fst (rename cfg_q (s_q s) old new (rn_fault_for f))) by (rewrite Er; reflexivity).
-    apply rename_rows_ok; auto using cfg_q_wf, cfg_q_read, cfg_q_atomic.
+    apply rename_rows_ok; auto using cfg_q_wf, cfg_q_skipdel, cfg_q_read, cfg_q_atomic.
 Qed.
 
 Theorem sys_run_inv l : forall b st, inv b st -> hist_ok b l -> inv (flag_after b l) (sys_run st l).
@@ -788,7 +793,7 @@ Proof.
     unfold sel, cfg_of in *. cbn. destruct (r =? 0) eqn:E0; [|exact Hg].
     apply N.eqb_eq in E0.
     replace q' with (fst (rename cfg_q (s_q s) old new (rn_fault_for f))) by (rewrite Er; reflexivity).
-    destruct Hok as (Hq & _). apply rename_stable; auto using cfg_q_wf, cfg_q_read, cfg_q_atomic.
+    destruct Hok as (Hq & _). apply rename_stable; auto using cfg_q_wf, cfg_q_skipdel, cfg_q_read, cfg_q_atomic.
     intros ->. apply (Hnr E0 new f). reflexivity.
 Qed.
 
